@@ -204,9 +204,32 @@ def _kill_everything(run_id: str, pgid: int | None) -> list[dict]:
 
 
 def _acquire_lock(lockf: Any, lock_wait: float | None) -> bool:
+    """Take the machine-wide runtime lock, waiting at most `lock_wait` seconds.
+
+    The bounded wait QUEUES like a blocking flock(2) (other checks wait with
+    blocking calls; a polling LOCK_NB loop never wins against such a queue):
+    util-linux `flock -w <s> <fd>` blocks on OUR open file description, so when it
+    succeeds this process holds the lock.  Falls back to polling."""
     if lock_wait is None:
         fcntl.flock(lockf, fcntl.LOCK_EX)
         return True
+    try:
+        fcntl.flock(lockf, fcntl.LOCK_EX | fcntl.LOCK_NB)
+        return True
+    except (BlockingIOError, PermissionError):
+        pass
+    exe = shutil.which('flock')
+    if exe is not None and lock_wait > 0:
+        fd = lockf.fileno()
+        try:
+            r = subprocess.run(
+                [exe, '-x', '-w', f'{lock_wait:.1f}', str(fd)], pass_fds=[fd],
+                stdin=subprocess.DEVNULL, stdout=subprocess.DEVNULL,
+                stderr=subprocess.DEVNULL, timeout=lock_wait + 30,
+            )
+            return r.returncode == 0
+        except (OSError, subprocess.TimeoutExpired):
+            pass
     end = time.monotonic() + lock_wait
     while True:
         try:
